@@ -2,6 +2,7 @@ import Proofs.Compl
 import Model.Shortlex
 import Model.Table
 import Proofs.Mirror
+import Proofs.CompSigns
 
 /-! # C06 — complements, dual and the vee (regressive) product
 
@@ -83,5 +84,35 @@ example : IsHom 2 0 (one 2 : CMV 2 ℤ) := by
   split
   · rename_i h; subst h; exact absurd (by simp [pc, fzero, bit]) hc
   · rfl
+
+end C06
+
+/-! ## storage level: the sign lists of `_gen_complement_func` -/
+namespace C06
+open Model CompSigns
+
+variable (n : Nat) (sig : Nat → Int) (σ : Equiv.Perm (Bm n)) (i2b b2i : Nat → Nat)
+
+/-- an entry of the executable outer-product table is the outer product of the two stored blades, read at the stored result blade -/
+theorem omt_table_entry (h1 : ∀ i : Bm n, i2b i.val = (σ i).val) (h2 : ∀ c : Bm n, b2i c.val = (σ.symm c).val) (k j m : Bm n) :
+    Ctx.tableAt (gradedMt (fun i => popcount (i2b i)) omtCheck (constructGmt sig i2b b2i (2 ^ n))) k.val j.val m.val
+      = if σ j = fxor (σ k) (σ m) then (wsign n (σ k).val (σ m).val : Int) else 0 := omt_entry n sig σ i2b b2i h1 h2 k j m
+
+/-- for a storage order with the scalar first and the mirror property (the default order: `shortlexOrder_mirror_all`), the
+    sign `(-1)**(omt[k, -1, dims-1-k] < 0.001)` is the outer-product sign of the blade with its complement … -/
+theorem complement_sign_lists (h1 : ∀ i : Bm n, i2b i.val = (σ i).val) (h2 : ∀ c : Bm n, b2i c.val = (σ.symm c).val)
+    (hmir : ∀ i : Bm n, σ (mir n i) = cmpl n (σ i)) (h0 : σ fzero = fzero) (k : Bm n) :
+    (if Ctx.tableAt (gradedMt (fun i => popcount (i2b i)) omtCheck (constructGmt sig i2b b2i (2 ^ n))) k.val (2 ^ n - 1) (2 ^ n - 1 - k.val) < 1
+        then (-1 : Int) else 1) = wsign n (σ k).val (cmpl n (σ k)).val
+    ∧ (if Ctx.tableAt (gradedMt (fun i => popcount (i2b i)) omtCheck (constructGmt sig i2b b2i (2 ^ n))) (2 ^ n - 1 - k.val) (2 ^ n - 1) k.val < 1
+        then (-1 : Int) else 1) = wsign n (cmpl n (σ k)).val (σ k).val :=
+  ⟨left_sign n sig σ i2b b2i h1 h2 hmir h0 k, right_sign n sig σ i2b b2i h1 h2 hmir h0 k⟩
+
+/-- … and `comp_func` (`Y[i] = X[dims-1-i] * signs[i]`) is the canonical left / right complement conjugated by the storage order -/
+theorem complement_functions {R : Type} [CommRing R] (h1 : ∀ i : Bm n, i2b i.val = (σ i).val) (h2 : ∀ c : Bm n, b2i c.val = (σ.symm c).val)
+    (hmir : ∀ i : Bm n, σ (mir n i) = cmpl n (σ i)) (h0 : σ fzero = fzero) (a : Array R) (i : Bm n) :
+    a.getD (2 ^ n - 1 - i.val) 0 * (((wsign n (σ i).val (cmpl n (σ i)).val : Int)) : R) = lcomp n (fun c : Bm n => a.getD (b2i c.val) 0) (σ i)
+    ∧ a.getD (2 ^ n - 1 - i.val) 0 * (((wsign n (cmpl n (σ i)).val (σ i).val : Int)) : R) = rcomp n (fun c : Bm n => a.getD (b2i c.val) 0) (σ i) :=
+  ⟨left_comp_entry n σ i2b b2i h1 h2 hmir h0 a i, right_comp_entry n σ i2b b2i h1 h2 hmir h0 a i⟩
 
 end C06
